@@ -35,6 +35,21 @@ def ratio(n, d):
     return SymRatio(n, d)
 
 
+def scale(x, c: float):
+    """float constant * symbolic int as an exact rational.  The product is exact in IEEE double
+    iff mantissa_bits(c) + bits(x) <= 53; the site is recorded with that verdict."""
+    from fractions import Fraction
+
+    if c != c or c in (float("inf"), float("-inf")):
+        raise Unsupported("non-finite float constant")
+    f = Fraction(c)
+    lo, hi = _iv(x)
+    mant = f.numerator.bit_length()
+    xb = max(abs(lo), abs(hi)).bit_length()
+    core.cur().float_sites.add(("mul-const", repr(c), (lo, hi), "exact" if mant + xb <= 53 else "inexact"))
+    return SymRatio(x * f.numerator, f.denominator)
+
+
 class SymRatio:
     """n/d with d != 0 on this path."""
 
